@@ -22,12 +22,11 @@ func Main(prop string) {
 	if prop == "C05" {
 		imp = "From MV Require Import C05.Model."
 	}
-	cases := &vh.Cases{Import: imp, Type: "case", CheckFn: "check", Shard: 40}
+	cases := &vh.Cases{Import: imp, Type: "case", CheckFn: "check", Shard: 25}
 
 	// corpus: the witnesses of the defects fixed in /repo, always first
 	for _, c := range Corpus(res, prop) {
 		cases.Add(c.CaseC(), map[string]any{"history": c.desc})
-		addValids(cases, c)
 	}
 
 	nh := o.Pick(260, 6000)
@@ -43,7 +42,6 @@ func Main(prop string) {
 		res.Count(fmt.Sprintf("h%d", i), nontrivial)
 		res.Evaluations += len(h.steps) - 1
 		cases.Add(h.CaseC(), map[string]any{"history": h.desc})
-		addValids(cases, h)
 		if i < 2 {
 			res.Sample(map[string]any{"history": h.desc})
 		}
@@ -61,26 +59,6 @@ func Main(prop string) {
 		panic(err)
 	}
 	res.Write(o.Out)
-}
-
-func addValids(cases *vh.Cases, h *Hist) {
-	w := h.w
-	// every voteproof built by the ballotbox, and every embedded voteproof of the table: model validator = real validator
-	for _, vc := range h.valids {
-		term := fmt.Sprintf("(CaseValid %s %d%%nat %s %s %s)", w.tabsC([]*aVP{vc.a}), len(w.vps), w.sufC(vc.sufH), vh.Bool(vc.wf), vh.Bool(vc.valid))
-		cases.Add(term, map[string]any{"validator": "own", "point": fmt.Sprintf("%d/%d/%d", vc.a.h, vc.a.r, vc.a.stage), "history": h.desc})
-	}
-	for _, v := range w.vps {
-		suf, ok := w.rsufs[v.h-1]
-		if !ok {
-			continue
-		}
-		wf := v.real.IsValid(w.netID) == nil
-		valid := isaacValid(v.real, suf)
-		term := fmt.Sprintf("(CaseValid %s %d%%nat %s %s %s)", w.tabsC(nil), v.idx, w.sufC(v.h-1), vh.Bool(wf), vh.Bool(valid))
-		cases.Add(term, map[string]any{"validator": "embedded", "vp": v.idx})
-		h.res.Evaluations++
-	}
 }
 
 // ---------------------------------------------------------------- free-running mode (exported API only + inspector at the end)
